@@ -122,3 +122,66 @@ Fixpoint exec_check (fuel : nat) (pick : nat -> nat -> nat) (md : exec_mode) (D 
       end
     end
   end.
+
+(* ------------------------------------------------------------------ the fork-join class (proofs/ForkJoin.v) *)
+(* a syntactic class of configurations for which C03 is proved with no hypothesis left: bodies built
+   from `close self`, `wait c; k`, `x <- new b; k` with a CLOSED child b, `print l; k` and calls of
+   parameterless functions; one provider per process; every channel mentioned by one process. *)
+Definition ncid (n : name) : list cid := match chan n with Some c => [c] | None => [] end.
+Definition selfn (n : name) : bool := is_self n && negb (initialized n) && String.eqb (ident n) "".
+Definition varn (n : name) : bool := negb (is_self n) && negb (initialized n) && negb (String.eqb (ident n) "").
+Definition chn (n : name) : bool := negb (is_self n) && initialized n.
+Definition nilb {A} (l : list A) : bool := match l with [] => true | _ => false end.
+
+Fixpoint fcids (f : form) : list cid :=
+  match f with
+  | FWait c k => ncid c ++ fcids k
+  | FNew _ b k => fcids b ++ fcids k
+  | FPrint _ k => fcids k
+  | _ => []
+  end.
+
+Fixpoint fv (f : form) : list string :=
+  match f with
+  | FWait c k => (if initialized c then [] else [ident c]) ++ fv k
+  | FNew x b k => fv b ++ List.filter (fun y => negb (String.eqb y (ident x))) (fv k)
+  | FPrint _ k => fv k
+  | _ => []
+  end.
+
+Fixpoint fj (f : form) : bool :=
+  match f with
+  | FClose c => selfn c
+  | FWait c k => (varn c || chn c) && fj k
+  | FNew x b k => varn x && fj b && nilb (fv b) && nilb (fcids b) && fj k
+  | FPrint _ k => fj k
+  | FCall _ args _ => nilb args
+  | _ => false
+  end.
+
+
+(* membership of a configuration / a function table in the class, decided *)
+Definition proc_ok_b (c : config) (pp : proc) : bool :=
+  fj (pr_body0 pp) &&
+  match pr_provs pp with
+  | [pv] => match chan pv with Some k => exists_b c k | None => false end
+  | _ => false
+  end &&
+  forallb (exists_b c) (fcids (pr_body0 pp)).
+
+Definition pair_ok_b (x y : pid * proc) : bool :=
+  cid_eqb x.1 y.1 ||
+  (negb (chan_eqb (self_chan x.2) (self_chan y.2)) && disj_b (fcids (pr_body0 x.2)) (fcids (pr_body0 y.2))).
+
+Definition chan_ok_b (st : chan_st) : bool :=
+  negb (ch_closed st) && match ch_buf st with None => true | Some m => rule_eqb (m_rule m) RCLS end.
+
+Definition fj_cfg_b (c : config) : bool :=
+  let ps := map_to_list (procs c) in
+  forallb (fun x => proc_ok_b c x.2) ps &&
+  forallb (fun x => forallb (pair_ok_b x) ps) ps &&
+  forallb (fun x => chan_ok_b x.2) (map_to_list (chans c)).
+
+Definition fj_funs_b (F : list fundef) : bool :=
+  forallb (fun fd => negb (nilb (fn_params fd)) || (fj (fn_body fd) && nilb (fcids (fn_body fd)))) F.
+
